@@ -397,7 +397,7 @@ func filesMatchRoot(root string, exp *ref.Result, s *spec.Spec) []mon.Problem {
 		}
 	}
 	for _, p := range snap.Files() {
-		if pre[p] || want[p] || strings.HasSuffix(p, ".audit.json") || strings.Contains(p, "_scipipe_tmp") {
+		if pre[p] || want[p] || mon.IsAuditFile(p) || strings.Contains(p, "_scipipe_tmp") {
 			continue
 		}
 		ps = append(ps, mon.Problem{Sig: "file-unexpected", Msg: "additional file " + p})
